@@ -77,7 +77,22 @@ type c14Op struct {
 	// markdel: the i-th ObjectSet gets a deletionTimestamp but is held by its finalizer: it still exists.
 	// delos: the i-th ObjectSet is gone from the API.
 	St string `json:"st,omitempty"`
+	// deploy: ONE API fault that hits this Reconcile call (consumed by the first request it applies to; a fault
+	// whose request is never made has no effect):
+	//   get             the first Get of the ObjectDeployment fails (500, not NotFound)
+	//   create          the pre-create of an absent ObjectDeployment fails (500)
+	//   update          the Update of the ObjectDeployment is rejected with a non-conflict error (503): nothing stored
+	//   updatelost      the Update is stored, but the response is lost: a timeout error comes back
+	//   conflict        a third party writes the ObjectDeployment right before the Update: the optimistic locking of the
+	//                   in-memory API answers 409 Conflict, the code re-Gets and retries
+	//   conflict+update the same, and the retried Update is rejected with a non-conflict error (503)
+	//   oslist          slice GC: the List of the ObjectSets fails
+	//   slicelist       slice GC: the List of the ObjectSlices fails
+	//   gcdel           slice GC: the first Delete of an ObjectSlice fails
+	Fault string `json:"fault,omitempty"`
 }
+
+var c14Faults = []string{"get", "create", "update", "updatelost", "conflict", "conflict+update", "oslist", "slicelist", "gcdel"}
 
 type c14Scn struct {
 	T     string    `json:"t"`     // always "dep" in this stream
@@ -228,6 +243,28 @@ type c14Client struct {
 	deleted       []string
 	touched       []string // writes that hit something they must not
 	nextUID       int
+	fault         string // API fault armed for the current op (see c14Op.Fault)
+	rv            int    // last resourceVersion handed out for the ObjectDeployment
+}
+
+var errC14Injected = apierrors.NewInternalError(fmt.Errorf("injected API error"))
+
+func (c *c14Client) take(f string) bool {
+	if c.fault == f {
+		c.fault = ""
+		return true
+	}
+	return false
+}
+
+func (c *c14Client) nextRV() string {
+	if c.deploy != nil {
+		if n, err := strconv.Atoi(c.deploy.ResourceVersion); err == nil && n > c.rv {
+			c.rv = n
+		}
+	}
+	c.rv++
+	return strconv.Itoa(c.rv)
 }
 
 func (c *c14Client) uid() types.UID {
@@ -242,6 +279,9 @@ func c14NotFound(kind, name string) error {
 func (c *c14Client) Get(_ context.Context, key client.ObjectKey, obj client.Object, _ ...client.GetOption) error {
 	switch o := obj.(type) {
 	case *corev1alpha1.ObjectDeployment:
+		if c.take("get") {
+			return errC14Injected
+		}
 		if c.deploy == nil || key.Name != c.deploy.Name || key.Namespace != c.deploy.Namespace {
 			return c14NotFound("objectdeployments", key.Name)
 		}
@@ -261,11 +301,14 @@ func (c *c14Client) Get(_ context.Context, key client.ObjectKey, obj client.Obje
 func (c *c14Client) Create(_ context.Context, obj client.Object, _ ...client.CreateOption) error {
 	switch o := obj.(type) {
 	case *corev1alpha1.ObjectDeployment:
+		if c.take("create") {
+			return errC14Injected
+		}
 		if c.deploy != nil {
 			return apierrors.NewAlreadyExists(schema.GroupResource{Resource: "objectdeployments"}, o.Name)
 		}
 		o.UID = c.uid()
-		o.ResourceVersion = "1"
+		o.ResourceVersion = c.nextRV()
 		c.deploy = o.DeepCopy()
 		return nil
 	case *corev1alpha1.ObjectSlice:
@@ -287,9 +330,37 @@ func (c *c14Client) Update(_ context.Context, obj client.Object, _ ...client.Upd
 		if c.deploy == nil || o.Name != c.deploy.Name {
 			return c14NotFound("objectdeployments", o.Name)
 		}
+		if c.take("update") {
+			return apierrors.NewServiceUnavailable("injected: admission webhook unavailable")
+		}
+		if c.fault == "conflict" || c.fault == "conflict+update" {
+			// a third party (a user, the ObjectDeployment controller) writes the stored object between the
+			// caller's last read and this write: metadata only, new resourceVersion
+			if c.take("conflict+update") {
+				c.fault = "update" // ... and the retried Update will be rejected
+			} else {
+				c.take("conflict")
+			}
+			if c.deploy.Annotations == nil {
+				c.deploy.Annotations = map[string]string{}
+			}
+			c.deploy.Annotations["verif.example/third-party"] = "x"
+			c.deploy.ResourceVersion = c.nextRV()
+		}
+		// optimistic locking, as the real API server does it: a write based on a stale resourceVersion is refused
+		// with 409 Conflict and changes nothing
+		if o.ResourceVersion != "" && o.ResourceVersion != c.deploy.ResourceVersion {
+			return apierrors.NewConflict(schema.GroupResource{Group: "package-operator.run", Resource: "objectdeployments"},
+				o.Name, fmt.Errorf("the object has been modified; please apply your changes to the latest version and try again"))
+		}
 		uid := c.deploy.UID
+		o.ResourceVersion = c.nextRV()
 		c.deploy = o.DeepCopy()
 		c.deploy.UID = uid
+		if c.take("updatelost") {
+			// the request took effect, the response did not make it back
+			return apierrors.NewTimeoutError("injected: request timed out", 1)
+		}
 		return nil
 	case *corev1alpha1.ObjectSlice:
 		c.touched = append(c.touched, "update:"+o.Namespace+"/"+o.Name)
@@ -302,6 +373,9 @@ func (c *c14Client) Delete(_ context.Context, obj client.Object, _ ...client.Del
 	switch o := obj.(type) {
 	case *corev1alpha1.ObjectSlice:
 		k := o.Namespace + "/" + o.Name
+		if c.take("gcdel") {
+			return errC14Injected
+		}
 		if _, ok := c.slices[k]; !ok {
 			return c14NotFound("objectslices", o.Name)
 		}
@@ -327,6 +401,9 @@ func (c *c14Client) List(_ context.Context, list client.ObjectList, opts ...clie
 	}
 	switch l := list.(type) {
 	case *corev1alpha1.ObjectSliceList:
+		if c.take("slicelist") {
+			return errC14Injected
+		}
 		keys := make([]string, 0, len(c.slices))
 		for k := range c.slices {
 			keys = append(keys, k)
@@ -340,6 +417,9 @@ func (c *c14Client) List(_ context.Context, list client.ObjectList, opts ...clie
 		}
 		return nil
 	case *corev1alpha1.ObjectSetList:
+		if c.take("oslist") {
+			return errC14Injected
+		}
 		l.Items = nil
 		for _, os := range c.objectSets {
 			if match(os) {
@@ -529,6 +609,9 @@ func c14Valid(s c14Scn) bool {
 					return false
 				}
 			}
+			if op.Fault != "" && !c14IsFault(op.Fault) {
+				return false
+			}
 		case "snap", "delos", "markdel":
 		case "life":
 			if op.St != "active" && op.St != "paused" && op.St != "archived" {
@@ -539,6 +622,15 @@ func c14Valid(s c14Scn) bool {
 		}
 	}
 	return true
+}
+
+func c14IsFault(f string) bool {
+	for _, g := range c14Faults {
+		if f == g {
+			return true
+		}
+	}
+	return false
 }
 
 func (x *c14Ctx) chunker() objectChunker {
@@ -827,7 +919,9 @@ func c14Exec(s c14Scn) string {
 			for k, sl := range c.slices {
 				before[k] = sl.Objects
 			}
+			c.fault = op.Fault
 			err := r.Reconcile(ctx, desired, chunker)
+			c.fault = ""
 			res := "ok"
 			if err != nil {
 				res = "err"
@@ -983,6 +1077,9 @@ func c14Tags(s c14Scn, out string) []string {
 		if op.Op == "life" {
 			add("life=" + op.St)
 		}
+		if op.Op == "deploy" && op.Fault != "" {
+			add("fault=" + op.Fault)
+		}
 		if op.Op == "chunk" || op.Op == "deploy" {
 			for _, ph := range op.Phases {
 				for _, id := range ph {
@@ -998,6 +1095,21 @@ func c14Tags(s c14Scn, out string) []string {
 	}
 	for _, t := range c14ExecTags {
 		add(t)
+	}
+	if steps := strings.Split(out, ";"); len(steps) == len(s.Ops) {
+		for i, op := range s.Ops {
+			if f := strings.Split(steps[i], " "); op.Op == "deploy" && op.Fault != "" && len(f) > 4 && f[0] == "D" {
+				// what the fault did to the call: result, template changed or not, slices created
+				t := "fault:" + op.Fault + ":" + f[1]
+				if f[3] != "C=" {
+					t += "+created"
+				}
+				if f[4] != "X=" {
+					t += "+deleted"
+				}
+				add(t)
+			}
+		}
 	}
 	for _, st := range strings.Split(out, ";") {
 		switch {
@@ -1534,4 +1646,61 @@ func TestVerifC14Deploy(t *testing.T) {
 		{A: []int{1}, B: []int{2}, SA: []int{300}, SB: []int{400}}}, Ops: []c14Op{{Op: "deploy", Phases: [][]int{{0}, {1}}}}})
 	run(c14Scn{Strat: "each", Sizes: []int{200}, Coll: []c14Coll{{A: []int{0}, B: []int{0}, SA: []int{200}, SB: []int{200}}},
 		Ops: []c14Op{{Op: "deploy", Phases: [][]int{{0}}}}})
+	run(c14Scn{Strat: "each", Sizes: []int{200}, Ops: []c14Op{{Op: "deploy", Phases: [][]int{{0}}, Fault: "frob"}}})
+
+	// ---- 9. API faults.  A package update (a pass that CHANGES a chunked template) whose Reconcile is hit by one
+	// API fault — the Get / the pre-create / the Update of the ObjectDeployment failing with a non-conflict error,
+	// the Update taking effect although an error comes back, a 409 Conflict (re-Get + retry; alone and followed by a
+	// rejected Update), the ObjectSet list / the slice list / the first Delete of the slice GC failing — then
+	// further passes (the retry, the next update).
+	// 9a. exhaustive: v1 [a,b] -> v2 [b,c] hit by fault f -> retry v2 -> v3 [d] hit by fault g -> retry v3, with an
+	// ObjectSet revision snapshotted after v1 / after the retry of v2 or not, EachObject; the fault on the very
+	// first call (no ObjectDeployment yet); and the same history with the real BinpackNextFit over half-MiB objects.
+	fl := append([]string{""}, c14Faults...)
+	dep := func(f string, phs ...[]int) c14Op { return c14Op{Op: "deploy", Phases: phs, Fault: f} }
+	snap := c14Op{Op: "snap"}
+	nf := 0
+	small := []int{200, 210, 220, 230}
+	for _, f := range fl {
+		for _, g := range fl {
+			for _, s1 := range []bool{false, true} {
+				for _, s2 := range []bool{false, true} {
+					ops := []c14Op{dep("", []int{0, 1})}
+					if s1 {
+						ops = append(ops, snap)
+					}
+					ops = append(ops, dep(f, []int{1, 2}), dep("", []int{1, 2}))
+					if s2 {
+						ops = append(ops, snap)
+					}
+					ops = append(ops, dep(g, []int{3}), dep("", []int{3}))
+					run(c14Scn{Strat: "each", Sizes: small, Cps: []int{0, 1, 2, 3}, Cms: []int{1, 0, 2, 0}, Ops: ops})
+					nf++
+				}
+			}
+		}
+		// the first call of all is hit; two phases; the fault repeats on the retry
+		run(c14Scn{Strat: "each", Sizes: small, Ops: []c14Op{dep(f, []int{0}, []int{1, 2}), dep(f, []int{0}, []int{1, 2}), dep("", []int{0}, []int{1, 2}),
+			snap, dep(f, []int{2}, []int{3}), dep("", []int{2}, []int{3})}})
+		nf++
+		// real BinpackNextFit: three half-MiB objects per version -> two slices each
+		h := L/2 + 1
+		run(c14Scn{Strat: "default", Sizes: []int{h, h, h, h, h, h}, Ops: []c14Op{dep("", []int{0, 1, 2}), dep(f, []int{3, 4, 5}), dep("", []int{3, 4, 5}),
+			snap, dep(f, []int{0, 4, 5}), dep("", []int{0, 4, 5})}})
+		nf++
+	}
+	r.Extra["fault_exhaustive_count"] = nf
+	// 9b. seeded random histories (as in 4.: updates, snapshots, lifecycle changes, deletions, scripted slices)
+	// in which every Reconcile is hit by a random fault with probability 1/2
+	nfh := r.Pick(1500, 20000)
+	for i := 0; i < nfh; i++ {
+		s := history(nil)
+		for j := range s.Ops {
+			if s.Ops[j].Op == "deploy" && rng.Intn(2) == 0 {
+				s.Ops[j].Fault = c14Faults[rng.Intn(len(c14Faults))]
+			}
+		}
+		s.Ops = append(s.Ops, c14Op{Op: "deploy", Phases: s.Ops[0].Phases})
+		run(s)
+	}
 }
